@@ -249,6 +249,28 @@ def run_dist_case(dname, cfg, pname, seed, tier, res=None, only=None):
             if bad:
                 vio.append({"key": "%s|%s|%s|row depends on the rest of the batch" % (dname, sig, name), "case": {"kind": "dist", "subject": dname, "cfg": cfg, "pattern": pname, "seed": seed, "batch": list(b), "direction": name, "tier": _TIER[0]},
                             "msg": "%s cfg=%s pattern=%s: %s: %s" % (dname, cfg, pname, name, bad)})
+        # two leading batch dimensions (a mesh of points): where the object accepts such an input, entry (i, j) must be the
+        # value of the corresponding row evaluated alone
+        if CT is None and name == "log_prob" and npool >= 3:
+            b = (0, 1, 2, 0)
+            try:
+                with torch.no_grad():
+                    out2 = fn(X[torch.tensor(b)].reshape(2, 2, *X.shape[1:]), None)
+            except Exception:
+                out2 = None
+            if out2 is not None and tuple(out2.shape) == (2, 2):
+                if res is not None:
+                    res["evaluations"] += 1
+                    res["states"] += 1
+                    res["transitions"] += 1
+                    res["traces"] += 1
+                    res["nontrivial"] += 1
+                flat = out2.reshape(-1)
+                for pos, i in enumerate(b):
+                    if bool(torch.isfinite(refs[i]).all()) and not float((flat[pos] - refs[i]).abs().max()) <= 1e-7 * max(1.0, float(refs[i].abs().max())):
+                        vio.append({"key": "%s|%s|%s|row depends on the rest of the batch" % (dname, sig, name + ":mesh"), "case": {"kind": "dist", "subject": dname, "cfg": cfg, "pattern": pname, "seed": seed, "batch": [-1], "direction": name, "tier": _TIER[0]},
+                                    "msg": "%s cfg=%s pattern=%s: log_prob of a 2x2 mesh of points: entry %d (pool row %d) differs by %.3g from the batch-size-1 evaluation" % (dname, cfg, pname, pos, i, float((flat[pos] - refs[i]).abs().max()))})
+                        break
     if only:
         vio = [v for v in vio if v["case"]["batch"] == list(only["batch"]) and v["case"]["direction"] == only["direction"]]
     return vio
